@@ -193,9 +193,15 @@ def hookWriter (eff : Content → FS → FS) : Writer := fun w new _ budget =>
   { fs := eff new w.fs, acts := [], status := .done, left := budget,
     calls := if hookArgsOk then [(new, .mod)] else [], viaHook := true }
 
+/-- the template file name a module records (`_template_filename`) when the Template was given the name `n`:
+the same name, provided `_CompileContext` stores it unchanged (`recordsFilenameVerbatim`, regenerated) - code
+that records a rewritten name (absolute, normalised …) records a *different* string for some names -/
+def recordedName (n : Nat) : Nat := if recordsFilenameVerbatim then n else n + 1
+
 /-- what `_compile` produces from the current source -/
 def newContent (w : World) (size : Nat) : Content :=
-  { src := w.srcVer, magic := magicNumber, complete := true, stamp := w.stamp, size := size, file := w.fileId }
+  { src := w.srcVer, magic := magicNumber, complete := true, stamp := w.stamp, size := size,
+    file := recordedName w.fileId }
 
 /-- faults of one construct -/
 structure Plan where
@@ -288,6 +294,7 @@ inductive HOp
   | replaceMod (c : Content) (mtime : Nat)  -- somebody installs another module file (e.g. other magic number)
   | setClock (t : Nat)
   | construct (p : Plan)
+  | respell (name : Nat)                    -- later Templates are given another spelling of the template file's name
 
 def stepH (w : World) : HOp → World
   | .modifySrc m => { w with srcVer := w.srcVer + 1, srcMtime := m }
@@ -295,6 +302,7 @@ def stepH (w : World) : HOp → World
   | .replaceMod c m => { w with fs := w.fs.set .mod (some ⟨c, m⟩) }
   | .setClock t => { w with clock := t }
   | .construct p => (construct defaultWriter w p).world
+  | .respell n => { w with fileId := n }
 
 def runH (w : World) (h : List HOp) : World := h.foldl stepH w
 
